@@ -30,7 +30,7 @@ func init() {
 // Batch), equal values with different descriptions, several messages, map-built lists
 func detGen(r *Rng, i int, cfg int, tier string) []string {
 	g := &exprGen{r: r}
-	shape := r.Intn(8)
+	shape := r.Intn(9)
 	note("shape=" + strconv.Itoa(shape))
 	switch shape {
 	case 0, 1: // Batch(Prefix(p1, e), Prefix(p2, e), ...): equal displays, different values
@@ -61,6 +61,12 @@ func detGen(r *Rng, i int, cfg int, tier string) []string {
 			g.emit("X", strconv.Itoa(k), "V")
 			g.emit(strList([]string{"x", "y"})...)
 		}
+	case 6: // a MultiParts stage on top of another: the inner one builds its list from a map, the outer one keeps the LAST of equal segments
+		g.emit("MP", "1", "/", "MP", "2", "=", ",", "S", "", "static usage", "0", "4")
+		g.emit("a/b/c", "a/b/c", "desc", "", r.Pick([]string{"tag", "t1"}))
+		g.emit("ab", "ab", "", "red", "")
+		g.emit("a/b", "disp", "", "", r.Pick([]string{"", "t2"}))
+		g.emit("a/d", "a/d", "other", "blue", "t3")
 	case 5: // segments that differ only in case: under CARAPACE_MATCH=1 one typed prefix reaches several of them
 		g.emit("MP", "1", "/", "V")
 		g.emit(strList([]string{"A/x", "a/x", "a/y", "A/y", "a/X", "b/x"})...)
@@ -73,6 +79,9 @@ func detGen(r *Rng, i int, cfg int, tier string) []string {
 	}
 	if shape == 5 {
 		v = r.Pick([]string{"a/", "A/", "a/x", "a"})
+	}
+	if shape == 6 {
+		v = r.Pick([]string{"", "a", "a/"})
 	}
 	cf := []string{"0", v}
 	cf = append(cf, strList(nil)...)
